@@ -15,7 +15,7 @@ from pyvc.source import INDEX
 from pyvc.verify import verify_into
 from vlib.core import Ctx, CheckerError, main_for
 
-FILES = ["model_edit.py"]
+FILES = ["model_edit.py", "model_edit_plural.py"]
 
 
 def cache_writers(ctx: Ctx) -> None:
